@@ -23,6 +23,7 @@ type NetConn struct {
 	WriteErrAt  int
 	ReadErrAt   int
 	EOFErr      error // error returned at end of input (default io.EOF)
+	EOFWithData bool  // the read that delivers the last input bytes also returns the end-of-input error
 	MaxReadPos  int   // highest input position ever handed out
 	ReadLimit   int   // if > 0: assertion boundary; reads that start at or beyond it are counted
 	ReadsBeyond int
@@ -67,6 +68,12 @@ func (c *NetConn) Read(b []byte) (int, error) {
 	c.Pos += n
 	if c.Pos > c.MaxReadPos {
 		c.MaxReadPos = c.Pos
+	}
+	if c.EOFWithData && c.Pos == len(c.In) {
+		if c.EOFErr != nil {
+			return n, c.EOFErr
+		}
+		return n, io.EOF
 	}
 	return n, nil
 }
